@@ -135,9 +135,35 @@ def w_linear(S, item):
 
 
 # ----------------------------------------------------------------------- C15
-def fingerprint(outs, ins):
+def fingerprint(outs, ins, rb_offset=0):
     """canonical, session-independent description of a result"""
+    from .. import nonlin
     bmap = {b.id: i for i, (b, t) in enumerate(ins)}
+    rb_index = {b.id: i - rb_offset for i, b in enumerate(nonlin.REBASE_LOG)}
+
+    def bid(i):
+        if i in bmap:
+            return bmap[i]
+        if i in rb_index:
+            return ('rb', rb_index[i])
+        return -1
+
+    def fp_terms(cell):
+        return frozenset((bid(x[0]), x[1], tuple((bid(tb.base_axis[0]), tb.base_axis[1], tb.forms) for tb in x[2]), x[3])
+                         for x in canon_cell(cell))
+
+    def fp_atom(a):
+        if a.kind == 'lin':
+            return ('lin', fp_terms(a.payload))
+        if a.kind == 'param':
+            return ('param', a.key)
+        if isinstance(a.payload, nonlin.Sum):
+            return ('sum', fp_sum(a.payload))
+        return ('op', repr(a.key[1:2]))
+
+    def fp_sum(s):
+        return frozenset((frozenset((fp_atom(a), e) for a, e in m), c) for m, c in s.d.items())
+
     fp = []
     for t in outs:
         if not isinstance(t, DataT):
@@ -145,9 +171,8 @@ def fingerprint(outs, ins):
             continue
         cells = []
         for idx in np.ndindex(*t.cells.shape):
-            cc = frozenset((bmap.get(x[0], -1), x[1], tuple((bmap.get(tb.base_axis[0], -1), tb.base_axis[1], tb.forms)
-                                                            for tb in x[2]), x[3]) for x in canon_cell(t.cells[idx]))
-            cells.append((idx, cc))
+            c = t.cells[idx]
+            cells.append((idx, fp_sum(c) if isinstance(c, nonlin.Sum) else fp_terms(c)))
         fp.append((tuple(t.dims), tuple(cells)))
     return tuple(fp)
 
@@ -170,7 +195,30 @@ PERSISTENT_WRITE_EVENTS = ('global-write', 'global-container-write', 'funcattr-w
                            'module-attr-write')
 
 
+def _with_nl(fn):
+    def wrapped(S, item):
+        from ..domain import HOOKS
+        from .. import nonlin
+        is_scat = item[0].startswith('scat')
+        if is_scat:
+            HOOKS['allow_nl'] = True
+        try:
+            return fn(S, item)
+        finally:
+            if is_scat:
+                HOOKS['allow_nl'] = False
+                del nonlin.REBASE_LOG[:]
+                nonlin.REBASED.clear()
+    wrapped.__name__ = fn.__name__
+    wrapped.__qualname__ = fn.__qualname__
+    return wrapped
+
+
 def w_pure(S, item):
+    return _with_nl(_w_pure)(S, item)
+
+
+def _w_pure(S, item):
     """C15 facts for one catalogue entry: argument mutation, persistent writes during the call,
     dependence on requires_grad, repeatability on the same module instance."""
     kind, ptuple = item
@@ -193,6 +241,8 @@ def w_pure(S, item):
         lists = [a for a in _iter_lists(args)]
         lsnap = [list(l) for l in lists]
         for rep in range(2):
+            from .. import nonlin as _nl
+            rb0 = len(_nl.REBASE_LOG)
             o = S.run(f, *args)
             res['cmp'] += 1
             evs = S.take_events()
@@ -206,7 +256,7 @@ def w_pure(S, item):
                 if e['kind'] in PERSISTENT_WRITE_EVENTS:
                     writes.append((e['kind'], e.get('target'), e['loc']))
             if o.kind == 'ok':
-                fps.append((rg, rep, fingerprint(entries.flatten(o.value), ins)))
+                fps.append((rg, rep, fingerprint(entries.flatten(o.value), ins, rb0)))
             elif o.kind == 'violation':
                 fps.append((rg, rep, ('violation', o.exc.rule)))
             else:
@@ -294,6 +344,10 @@ def w_history(S_unused, item):
 
 # ----------------------------------------------------------------------- C16
 def w_dtype(S, item):
+    return _with_nl(_w_dtype)(S, item)
+
+
+def _w_dtype(S, item):
     kind, ptuple = item
     p = dict(ptuple)
     res = {'cmp': 0, 'diff': 0, 'findings': [], 'sample': None}
@@ -310,6 +364,8 @@ def w_dtype(S, item):
             return res
         S.take_events()
         S.take_findings()
+        from .. import nonlin as _nl
+        rb0 = len(_nl.REBASE_LOG)
         o = S.run(f, *args)
         res['cmp'] += 1
         evs = S.take_events()
@@ -351,7 +407,7 @@ def w_dtype(S, item):
                     loc = e['loc']
                     d['file'], d['line'], d['function'], d['statement'] = loc.file, loc.line, loc.func, loc.text
                     res['findings'].append(d)
-            ref_fp = fingerprint(outs, ins)
+            ref_fp = fingerprint(outs, ins, rb0)
         else:
             for e in evs:
                 if e['kind'] == 'view-on-noncontiguous':
@@ -362,7 +418,7 @@ def w_dtype(S, item):
                     loc = e['loc']
                     d['file'], d['line'], d['function'], d['statement'] = loc.file, loc.line, loc.func, loc.text
                     res['findings'].append(d)
-            if ref_fp is not None and fingerprint(outs, ins) != ref_fp:
+            if ref_fp is not None and fingerprint(outs, ins, rb0) != ref_fp:
                 res['diff'] = 1
                 res['findings'].append(finding('R-STRIDE', label, 'value-depends-on-contiguity',
                                                'the result differs for a non-contiguous input'))
